@@ -286,7 +286,7 @@ var (
 	classMu sync.Mutex
 	classes = map[string][]string{}
 
-	cntJudged, cntJudgedOK, cntProtStart, cntProtEnd, cntExcused atomic.Int64
+	cntJudged, cntJudgedOK, cntProtStart, cntProtEnd, cntExcused, cntRejectedTomb atomic.Int64
 )
 
 func newSys(u *universe) *sys {
@@ -397,7 +397,7 @@ func (s *sys) Apply(i int) (string, bool) {
 func (s *sys) applyOp(o op) (string, bool) {
 	w := s.w
 	ctx := context.Background()
-	var res string
+	var res, rejectedTomb string
 	switch o.kind {
 	case opPutO:
 		if s.oVer >= 0 && s.oVer != o.v {
@@ -429,6 +429,7 @@ func (s *sys) applyOp(o op) (string, bool) {
 		}
 	case opPutT:
 		var err error
+		tombBefore := len(s.holders(s.u.tomb)) > 0
 		s.guard(o.name, func() {
 			w.SetOrder(o.order)
 			err = w.Eng.Put(ctx, s.u.tomb, nil)
@@ -439,6 +440,9 @@ func (s *sys) applyOp(o op) (string, bool) {
 			s.tomb = "accepted"
 		} else {
 			s.tomb = "rejected"
+			if !tombBefore {
+				rejectedTomb = res
+			}
 		}
 	case opSetMode:
 		if w.Mode(o.s) == o.m {
@@ -495,7 +499,43 @@ func (s *sys) applyOp(o op) (string, bool) {
 		res = fmt.Sprintf("%d/%s", n, errClass(err))
 	}
 	s.observe()
+	if rejectedTomb != "" {
+		s.checkNoTombstoneTrace(rejectedTomb)
+	}
 	return res, true
+}
+
+// checkNoTombstoneTrace: a tombstone broadcast that the engine answered with an error (rejected by
+// a shard that knows a lock, then rolled back; or stored nowhere) must not leave the tombstone object
+// on any shard, whatever the visiting order and whichever shards failed non-fatally.
+func (s *sys) checkNoTombstoneTrace(answer string) {
+	cntRejectedTomb.Add(1)
+	var kept []string
+	kind := "unindexed-blob-on-a-shard-without-metabase"
+	for i, sh := range s.w.Shards {
+		blob, _ := sh.Stor.Inner().Exists(addrOf(s.u.tomb))
+		idx := !s.w.Mode(i).NoMetabase() && has(s.shadow[s.shadowKey(i, s.u.tomb)], "INDEXED")
+		if idx {
+			kind = "tombstone-indexed"
+		}
+		if blob || idx {
+			kept = append(kept, fmt.Sprintf("shard %d [%s] (blob=%v, indexed=%v, live lock indexed=%v)", i, shardDesc(s.w, i), blob, idx, s.lockOn(i)))
+		}
+	}
+	if len(kept) > 0 {
+		s.fail("rejected-tombstone-left-on-a-shard:engine-answer="+answer+":"+kind,
+			fmt.Sprintf("engine.Put(tombstone) returned an error (%s) and the tombstone was on no shard before the call, but afterwards it is kept by %s", answer, strings.Join(kept, ", ")))
+	}
+}
+
+// lockOn: the (last seen) metabase of shard i lists a lock that is live in the current epoch.
+func (s *sys) lockOn(i int) bool {
+	for _, l := range s.u.locks {
+		if s.epoch <= l.exp && has(s.shadow[s.shadowKey(i, l.obj)], "INDEXED") {
+			return true
+		}
+	}
+	return false
 }
 
 // mayHaveExpired: some object of the universe that was put can be past its expiration epoch.
@@ -584,14 +624,7 @@ func (s *sys) diagnose(obj *object.Object, hs []int, gerr error) (string, string
 	for _, h := range hs {
 		isHolder[h] = true
 	}
-	lockOn := func(i int) bool {
-		for _, l := range s.u.locks {
-			if s.epoch <= l.exp && has(s.shadow[s.shadowKey(i, l.obj)], "INDEXED") {
-				return true
-			}
-		}
-		return false
-	}
+	lockOn := s.lockOn
 	lockAnywhere := false
 	for i := range w.Shards {
 		lockAnywhere = lockAnywhere || lockOn(i)
@@ -633,6 +666,28 @@ func (s *sys) diagnose(obj *object.Object, hs []int, gerr error) (string, string
 	}
 	if t := s.tomb; t != "" && strings.Join(causes, "+") != "object-expired-on-holder(lock-missing-on-holder)" {
 		fp += ":last-tombstone-broadcast=" + t
+	}
+	if s.tomb == "accepted" && strings.Contains(fp, "copy-available-on-holder-but-not-served") {
+		// O's own shards do not list the tombstone: it is recorded on a shard without a copy that reads visit first
+		for _, i := range s.holders(s.u.tomb) {
+			if !s.copies[i] {
+				fp += ":tombstone-on-a-shard-without-a-copy"
+				break
+			}
+		}
+	}
+	if s.tomb == "rejected" && len(s.holders(s.u.tomb)) > 0 {
+		// not the garbage mark of a rolled back tombstone: the rejected tombstone itself is still stored
+		fp += ":rejected-tombstone-still-stored-on-a-shard"
+	}
+	if s.tomb == "" && s.oVer == 1 && s.epoch > objExp && strings.Contains(fp, "copy-deleted-from-holder") {
+		// removed by the expiry handling; could the engine-wide lock check have seen a live lock?
+		for i := range w.Shards {
+			if !w.Mode(i).NoMetabase() && lockOn(i) {
+				fp += ":expired-copy-deleted-although-a-live-lock-is-readable-on-another-shard"
+				break
+			}
+		}
 	}
 	var others []string
 	for i := range w.Shards {
@@ -690,6 +745,7 @@ func (s *sys) Key() string {
 func main() {
 	depth := flag.Int("depth", 0, "override BFS depth")
 	shardsFlag := flag.Int("shards", 0, "explore only the world with this many shards (2|3)")
+	familyOnly := flag.Bool("family", false, "run only the 3-shard tombstone-broadcast family (development aid)")
 	r := ev.Start("C08", ev.ModelChecking)
 	if !ew.Instrumented {
 		r.Fatal("built without the verif overlay")
@@ -736,7 +792,7 @@ func main() {
 	var alphabets = map[string][]string{}
 	totalObs := 0
 	for _, p := range plans {
-		if *shardsFlag != 0 && p.u.shards != *shardsFlag {
+		if *familyOnly || (*shardsFlag != 0 && p.u.shards != *shardsFlag) {
 			continue
 		}
 		cfg := mkcfg(p)
@@ -752,9 +808,20 @@ func main() {
 		rule = append(rule, fmt.Sprintf("%d shards: %d letters (incl. %d root-only macros), depth bound %d (completed %d), %d states, %d transitions, %.0f s",
 			p.u.shards, len(p.u.ops), countMacros(p.u), cfg.MaxDepth, res.DepthCompleted, res.States, res.Transitions, time.Since(t0).Seconds()))
 	}
+	if *shardsFlag == 0 || *shardsFlag == 3 {
+		t0 := time.Now()
+		fr := runFamily(r, buildUniverse(3, false), r.Thorough())
+		exhaustive = exhaustive && fr.complete
+		rule = append(rule, fmt.Sprintf("3-shard tombstone-broadcast family (exhaustive product, every case a scripted history of plain letters with the oracle after each step): %d cases = O placed on its first or second HRW shard x lock broadcast with %s x tombstone broadcast with %s x all 6 visiting orders of the tombstone broadcast, each followed by a GC pass on every shard; %d steps, %d distinct states, tombstone rejected in %d cases and accepted in %d, lock accepted in %d, %.0f s",
+			fr.cases, fr.lockDesc, fr.tombDesc, fr.steps, fr.states, fr.rejected, fr.accepted, fr.protected, time.Since(t0).Seconds()))
+		if fr.rejected == 0 || fr.protected == 0 {
+			r.Fatal("vacuous family: rejected=%d protected=%d", fr.rejected, fr.protected)
+		}
+	}
 	if vmaps.Calls() == 0 {
 		r.Fatal("vmaps shim was never called")
 	}
+	r.Set("rejected_tombstone_broadcasts_checked_for_traces", cntRejectedTomb.Load())
 	r.Exhaustive(exhaustive)
 	r.Set("alphabet", alphabets)
 	var cls []string
@@ -772,13 +839,13 @@ func main() {
 	r.Set("judged_observations_excused_by_unservable_shards", cntExcused.Load())
 	r.Set("protection_started", cntProtStart.Load())
 	r.Set("protection_ended_by_lock_expiration", cntProtEnd.Load())
-	if cntJudged.Load() == 0 || cntJudgedOK.Load() == 0 || cntProtEnd.Load() == 0 {
+	if !*familyOnly && (cntJudged.Load() == 0 || cntJudgedOK.Load() == 0 || cntProtEnd.Load() == 0) {
 		r.Fatal("vacuous run: judged=%d served=%d expirations=%d", cntJudged.Load(), cntJudgedOK.Load(), cntProtEnd.Load())
 	}
 	fmt.Printf("  judged observations: %d (object served: %d, excused (no shard able to serve even an unlocked object): %d); protection started %d times, ended by lock expiration %d times (counted over all replays)\n",
 		cntJudged.Load(), cntJudgedOK.Load(), cntExcused.Load(), cntProtStart.Load(), cntProtEnd.Load())
 	r.Rule("BFS over operation sequences on a real engine (error threshold " + strconv.Itoa(errThr) + "): " + strings.Join(rule, "; ") +
-		". Root-only macro letters are scripted prefixes of plain letters (oracle evaluated after each of their steps) and count as one step of the depth bound. States are deduplicated by (epoch; per shard: mode, fault plan, error counter, GC epochs, per object blob presence and metabase status; model: protection flag and end, shards that held O, last tombstone result, last Get result); engine.Get(O) is judged after every transition while an accepted lock is live; non-trivial = newly reached state")
+		". In the BFS, root-only macro letters are scripted prefixes of plain letters (oracle evaluated after each of their steps) and count as one step of the depth bound. States are deduplicated by (epoch; per shard: mode, fault plan, error counter, GC epochs, per object blob presence and metabase status; model: protection flag and end, shards that held O, last tombstone result, last Get result); engine.Get(O) is judged after every transition while an accepted lock is live; after every tombstone broadcast that the engine answered with an error (tombstone on no shard before) no shard may keep the tombstone object; non-trivial = newly reached state")
 	r.Assume(
 		"single-threaded histories: concurrent lock/tombstone broadcasts are not explored; background GC never runs by itself (remover interval 24h), GC passes and new-epoch handlers are invoked synchronously through injected accessors, epochs are delivered to all shards at once",
 		"write faults fail a blob put before it touches the disk (thorough: read faults fail every blob read of a shard); metabase-level faults are not injected; no write-cache",
@@ -787,6 +854,144 @@ func main() {
 		"forced removals (engine.Delete / Drop / container removal), which override locks by contract, are not in the alphabet; the tombstone expires at epoch 9 (never reached)",
 	)
 	r.Finish()
+}
+
+type familyResult struct {
+	cases, steps, states          int
+	rejected, accepted, protected int
+	lockDesc, tombDesc            string
+	complete                      bool
+}
+
+// runFamily enumerates the focused 3-shard family around the tombstone broadcast: every visiting
+// order x shards failing non-fatally at tombstone time x shards that missed the lock x placement of
+// O. Each case is a history of plain letters of the 3-shard alphabet run on a fresh engine through
+// the same Apply/oracle as the BFS.
+func runFamily(r *ev.Run, u *universe, thorough bool) familyResult {
+	// per-shard condition: 0 fine, 1 read-only during the broadcast, 2 its next blob put fails
+	var lockSets, tombSets [][]int
+	enumx.Product([]int{3, 3, 3}, func(c []int) bool {
+		bad, fine := 0, 0
+		for _, x := range c {
+			if x != 0 {
+				bad++
+			} else {
+				fine++
+			}
+		}
+		cc := append([]int(nil), c...)
+		if fine > 0 && (thorough || bad <= 1) {
+			lockSets = append(lockSets, cc) // some shard must store the lock
+		}
+		if thorough || bad <= 1 {
+			tombSets = append(tombSets, cc)
+		}
+		return true
+	})
+	var perms [][]int
+	enumx.Perms(3, func(p []int) bool { perms = append(perms, append([]int(nil), p...)); return true })
+	type fcase struct{ ops []string }
+	var cases []fcase
+	cond := func(c []int, ops *[]string, pre bool) {
+		for s, x := range c {
+			switch {
+			case pre && x == 1:
+				*ops = append(*ops, fmt.Sprintf("SetMode(%d,RO)", s))
+			case pre && x == 2:
+				*ops = append(*ops, fmt.Sprintf("FailNextPut(%d)", s))
+			case !pre && x == 1:
+				*ops = append(*ops, fmt.Sprintf("SetMode(%d,RW)", s))
+			}
+		}
+	}
+	for place := 0; place < 2; place++ {
+		for _, lc := range lockSets {
+			for _, tc := range tombSets {
+				for _, p := range perms {
+					var ops []string
+					if place == 1 {
+						ops = append(ops, "SetMode(0,RO)", "Put(O)", "SetMode(0,RW)") // O lands on its second shard
+					} else {
+						ops = append(ops, "Put(O)")
+					}
+					cond(lc, &ops, true)
+					ops = append(ops, "Put(L)/visit-0-1-2")
+					cond(lc, &ops, false)
+					cond(tc, &ops, true)
+					ops = append(ops, "Put(T)/"+permName(p))
+					cond(tc, &ops, false)
+					ops = append(ops, "GCPass(0)/visit-0-1-2", "GCPass(1)/visit-1-0-2", "GCPass(2)/visit-2-0-1")
+					for i := range ops {
+						ops[i] = u.prefix + ops[i]
+					}
+					cases = append(cases, fcase{ops})
+				}
+			}
+		}
+	}
+	var mu sync.Mutex
+	res := familyResult{cases: len(cases), complete: true}
+	if thorough {
+		res.lockDesc, res.tombDesc = "every subset of shards read-only or failing their put (one shard at least storing the lock)", "every subset of shards read-only or failing their put"
+	} else {
+		res.lockDesc, res.tombDesc = "no or one shard read-only or failing its put", "no or one shard read-only or failing its put"
+	}
+	seen := map[string]bool{}
+	enumx.Parallel(len(cases), func(ci int) {
+		if r.Expired() {
+			mu.Lock()
+			res.complete = false
+			mu.Unlock()
+			return
+		}
+		c := cases[ci]
+		s := newSys(u)
+		defer s.Close()
+		var done []string
+		reported := map[string]bool{}
+		for _, n := range c.ops {
+			i, ok := u.idx[n]
+			if !ok {
+				panic("family: unknown letter " + n)
+			}
+			if _, ok := s.Apply(i); !ok {
+				continue
+			}
+			done = append(done, n)
+			r.Eval(1)
+			r.Transition(1)
+			r.TraceOK(1)
+			key := s.Key()
+			mu.Lock()
+			res.steps++
+			if !seen[key] {
+				seen[key] = true
+				res.states++
+				r.State(1)
+				r.Nontrivial(key)
+			}
+			mu.Unlock()
+			if fp, what := s.Check(); fp != "" && !reported[fp] {
+				reported[fp] = true
+				r.Violation(fp, what, map[string]any{"ops": append([]string(nil), done...)})
+			}
+		}
+		mu.Lock()
+		switch s.tomb {
+		case "rejected":
+			res.rejected++
+		case "accepted":
+			res.accepted++
+		}
+		if s.protected {
+			res.protected++
+		}
+		mu.Unlock()
+		if ci%97 == 0 && r.WantSample() {
+			r.Sample(map[string]any{"ops": done, "last_observation": s.obs})
+		}
+	})
+	return res
 }
 
 func countMacros(u *universe) int {
